@@ -327,6 +327,13 @@ func (e *Engine) runTargets(ts []target, mode string) *checkResult {
 			res.engineErrs = append(res.engineErrs, fmt.Sprintf("%s: %v", name, err))
 			continue
 		}
+		if fx.con != nil && !fx.con.IsIface {
+			for _, en := range fx.con.Ens {
+				if en.Kind == "lensures" && !fx.lensEvaluated[fmt.Sprintf("%s:%d", en.File, en.Line)] {
+					res.engineErrs = append(res.engineErrs, fmt.Sprintf("%s: %s:%d: lensures[%s] is evaluated at no return (a local it names is never defined)", name, en.File, en.Line, en.Label))
+				}
+			}
+		}
 		if fx.con != nil {
 			for ck := range fx.con.CallPre {
 				if !fx.seenCallPre[ck] {
